@@ -109,6 +109,34 @@ def conformance(data):
 class Spec(ProgramSpec):
     PID = PID
 
+    BAD_NAMES = ('utf 8', 'latin 1', '1252', '437', 'UTF 16', '8859')
+    ENC_POS = {'C': 1, 'F': 1, 'P': 2, 'M': 2, 'D': 3}
+
+    def cases(self, ctx, budget, rng):
+        # 4 %: one call gets an argument that cannot be represented in a canonical file (a codec
+        # name Python accepts but a header cannot carry, a negative indent): the writer must
+        # refuse the call, or what it writes must still conform (D27, D28)
+        for case in ProgramSpec.cases(self, ctx, budget, rng):
+            if case[2] and rng.random() < 0.04:
+                calls = list(case[2])
+                i = rng.randrange(len(calls))
+                c = calls[i]
+                if c[0] == 'P' and rng.random() < 0.4:
+                    calls[i] = c[:3] + (rng.choice([-1, -3]),) + c[4:]
+                else:
+                    pos = self.ENC_POS[c[0]]
+                    calls[i] = c[:pos] + (rng.choice(self.BAD_NAMES),) + c[pos + 1:]
+                case = (case[0], case[1], calls)
+            yield case
+
+    def bad_arg(self, case):
+        for i, c in enumerate(case[2]):
+            if c[self.ENC_POS[c[0]]] in self.BAD_NAMES:
+                return i
+            if c[0] == 'P' and isinstance(c[3], int) and not isinstance(c[3], bool) and c[3] < 0:
+                return i
+        return None
+
     def request(self, case):
         return adapters.write_request(case[0], case[1], case[2], self.tables)
 
@@ -121,6 +149,13 @@ class Spec(ProgramSpec):
     def oracle(self, case, impl_res):
         res, data = adapters.impl_write(*case)
         bad = []
+        bi = self.bad_arg(case)
+        if bi is not None and data is not None:
+            if not res.split(' ')[bi + 1].startswith('ok/'):
+                return []          # refused; C09 checks that nothing of the call is in the stream
+            # accepted: whatever was written has to conform all the same
+            return [{'what': 'call %d with an unrepresentable argument was accepted and: %s' % (bi, b),
+                     'program': gen.program_to_json(case)} for b in conformance(data)]
         if data is None or not all(r.startswith('ok/') for r in res.split(' ')[:-1]):
             bad.append('a well-ordered valid program was rejected: %s' % res[:300])
         else:
